@@ -78,6 +78,62 @@ func isSortCall(c *ssa.CallCommon) (kind string, ok bool) {
 	return "", false
 }
 
+// sortKeys: what makes two execution requests different requests. A comparator that ignores one
+// of them leaves requests that differ only there in their arrival order (second table audit:
+// two inline-fragment steps of one service at one object tied until the query was compared).
+var sortKeys = []struct{ fields, why string }{
+	{"InsertionPoint", "the realized insertion point (the object the answer is merged at, and the id which is sent)"},
+	{"URL", "the service"},
+	{"QueryString|QueryStringHash", "what is asked (two steps of one service at one object, e.g. inline fragments of an abstract type, differ in nothing else)"},
+}
+
+func (r *Run) missingSortKeys(v ssa.Value) []string {
+	fs, unk := r.P.CG.funcValues(v, map[ssa.Value]bool{})
+	if unk != "" || len(fs) != 1 {
+		return nil
+	}
+	read := map[string]bool{}
+	seen := map[*ssa.Function]bool{}
+	var walk func(fn *ssa.Function, depth int)
+	walk = func(fn *ssa.Function, depth int) {
+		if fn == nil || seen[fn] || depth > 3 || len(fn.Blocks) == 0 {
+			return
+		}
+		seen[fn] = true
+		for _, ins := range allInstrs(fn) {
+			switch x := ins.(type) {
+			case *ssa.FieldAddr:
+				if f := fieldOf(x); f != nil {
+					read[f.Name()] = true
+				}
+			case *ssa.Field:
+				if st, ok := x.X.Type().Underlying().(*types.Struct); ok {
+					read[st.Field(x.Field).Name()] = true
+				}
+			case ssa.CallInstruction:
+				if callee := x.Common().StaticCallee(); callee != nil && inModule(callee) {
+					walk(callee, depth+1)
+				}
+			}
+		}
+		for _, an := range fn.AnonFuncs {
+			walk(an, depth+1)
+		}
+	}
+	walk(fs[0], 0)
+	var missing []string
+	for _, k := range sortKeys {
+		ok := false
+		for _, f := range strings.Split(k.fields, "|") {
+			ok = ok || read[f]
+		}
+		if !ok {
+			missing = append(missing, k.why)
+		}
+	}
+	return missing
+}
+
 // totalLess: the comparator never gives up — every return is the result of a comparison
 // (or of a call), not a constant.
 func (r *Run) totalLess(v ssa.Value) (bool, string) {
@@ -452,30 +508,108 @@ var pureFuncs = map[string]bool{
 	"(time.Time).Before": true, "(time.Time).After": true,
 }
 
-func isPureCall(c *ssa.CallCommon) bool {
+func isPureCall(c *ssa.CallCommon) bool { return isPureCallD(c, map[*ssa.Function]bool{}) }
+
+func isPureCallD(c *ssa.CallCommon, seen map[*ssa.Function]bool) bool {
 	n := calleeName(c)
 	if pureFuncs[n] {
 		return true
 	}
-	// lo helpers that only read their arguments
+	// lo helpers that only read their arguments — and whose callbacks do nothing else either
+	// (second table audit: the callback was not looked at)
 	if strings.HasPrefix(n, "github.com/samber/lo.") {
 		switch strings.TrimPrefix(strings.SplitN(n, "[", 2)[0], "github.com/samber/lo.") {
 		case "Contains", "ContainsBy", "Uniq", "UniqBy", "Map", "Filter", "Difference":
+			for _, a := range c.Args {
+				if _, isSig := a.Type().Underlying().(*types.Signature); !isSig {
+					continue
+				}
+				var f *ssa.Function
+				switch x := a.(type) {
+				case *ssa.MakeClosure:
+					f, _ = x.Fn.(*ssa.Function)
+				case *ssa.Function:
+					f = x
+				}
+				if f == nil || !effectFree(f, seen) {
+					return false
+				}
+			}
 			return true
 		}
 	}
-	// read-only methods of gqlparser lists and module predicates are summarised by name
+	sc := c.StaticCallee()
+	// read-only methods of gqlparser lists are summarised by name; a function of this module
+	// with such a name is looked into
 	if strings.HasSuffix(n, ").ForName") || strings.HasSuffix(n, ".Name") || strings.HasSuffix(n, ").String") {
+		if sc != nil && inModule(sc) {
+			return effectFree(sc, seen)
+		}
 		return true
 	}
 	if strings.HasPrefix(n, modPath+"/common.Is") {
-		return true
+		return sc != nil && effectFree(sc, seen)
 	}
 	switch n {
 	case modPath + "/merger.isNodeField", modPath + "/merger.isIDField", modPath + "/merger.isImplementsNodeInterface":
-		return true
+		return sc != nil && effectFree(sc, seen)
 	}
 	return false
+}
+
+// effectFree: the function writes only to memory it allocated itself, starts nothing, sends
+// nothing, and calls only pure functions.
+func effectFree(f *ssa.Function, seen map[*ssa.Function]bool) bool {
+	if f == nil || f.Blocks == nil {
+		return false
+	}
+	if seen[f] {
+		return true
+	}
+	seen[f] = true
+	localRoot := func(v ssa.Value) bool {
+		for {
+			switch x := v.(type) {
+			case *ssa.FieldAddr:
+				v = x.X
+				continue
+			case *ssa.IndexAddr:
+				v = x.X
+				continue
+			case *ssa.Alloc:
+				return x.Parent() == f
+			case *ssa.MakeMap, *ssa.MakeSlice:
+				return true
+			}
+			return false
+		}
+	}
+	for _, ins := range allInstrs(f) {
+		switch x := ins.(type) {
+		case *ssa.Store:
+			if !localRoot(x.Addr) {
+				return false
+			}
+		case *ssa.MapUpdate:
+			if !localRoot(x.Map) {
+				return false
+			}
+		case *ssa.Send, *ssa.Go, *ssa.Defer, *ssa.Select, *ssa.Panic:
+			return false
+		case *ssa.Call:
+			if b, ok := x.Call.Value.(*ssa.Builtin); ok {
+				switch b.Name() {
+				case "len", "cap", "append", "copy", "min", "max":
+					continue
+				}
+				return false
+			}
+			if !isPureCallD(&x.Call, seen) {
+				return false
+			}
+		}
+	}
+	return true
 }
 
 // sortedAfter: after the loop, the accumulator is passed to a total sort before any other use.
@@ -785,8 +919,12 @@ func (r *Run) checkPositionalReducer(fn *ssa.Function, call *ssa.Call, mapF, red
 		return
 	}
 	r.OK(rule, name, "AsyncMapReduce reducer", site, "positional: one worker per index of the list, each result carries its index in ."+carrier.Name()+", the accumulator has one slot per index and the reducer stores at acc[value."+carrier.Name()+"] only")
-	// the entry sort that makes the order of the incoming requests irrelevant
-	r.checkSortedEntry(fn)
+	// the entry sort that makes the order of the incoming requests irrelevant: asked of the
+	// function that receives the execution requests themselves (the lists derived from them
+	// position by position inherit their order)
+	if len(fn.Params) >= 2 && strings.HasSuffix(fn.Params[len(fn.Params)-1].Type().String(), "executor.ExecutionRequest") {
+		r.checkSortedEntry(fn)
+	}
 }
 
 // checkSortedEntry (R9b.sorted-entry): DepthExecutor.Execute sorts the request list it was
@@ -811,6 +949,10 @@ func (r *Run) checkSortedEntry(fn *ssa.Function) {
 		if kind == "less" {
 			if ok, w := r.totalLess(ci.Common().Args[1]); !ok {
 				why = w
+				continue
+			}
+			if missing := r.missingSortKeys(ci.Common().Args[1]); len(missing) > 0 {
+				why = "the comparator does not look at " + strings.Join(missing, ", ") + ": requests which differ only there keep their arrival order"
 				continue
 			}
 		}
@@ -856,8 +998,8 @@ var reducerTable = map[string]reducerClass{
 	"queryer.(*MultiOpQueryer).Query":                                           {"POS-chunks", ""},
 	"introspection.(*ParallelRemoteSchemaIntrospector).IntrospectRemoteSchemas": {"AS-index", ""},
 	"executor.(*DepthExecutor).Execute":                                         {"POS-index", ""},
-	"executor.(*DepthExecutor).parseRespones":                                   {"multiset", "per request of ONE service group: one execution result (merged at that request's own insertion point — different requests of a group have different insertion points or belong to different steps) and its next requests; the next requests are re-sorted by a total order at the entry of DepthExecutor.Execute (checked: R9b.sorted-entry), so their arrival order is not observable. An earlier version of this line claimed the order was unobservable outright; it was not (the first failing entry of a batch decides which error is reported) until Execute began to sort"},
-	"executor.findNextExecutionRequestsAsync":                                   {"multiset", "next execution requests only: re-sorted by a total order at the entry of DepthExecutor.Execute (R9b.sorted-entry)"},
+	"executor.(*DepthExecutor).parseRespones":                                   {"POS-index", ""},
+	"executor.findNextExecutionRequestsAsync":                                   {"multiset", "next execution requests only: re-sorted at the entry of DepthExecutor.Execute by realized insertion point, service and query (R9b.sorted-entry checks that the comparator looks at all three); requests equal in all three are the same request, so no arrival order survives the sort. (The second table audit showed that the comparator of repair 719a0ce, which stopped at the service, left two inline-fragment steps of one service in arrival order; repaired.)"},
 }
 
 // checkChunkReducer: MultiOpQueryer.Query — the chunk index stored in the mapped value is the
@@ -1164,7 +1306,7 @@ func stepListLoops(fn *ssa.Function) []*mapLoop {
 }
 
 var stepLoopTable = map[string]tabEntry{
-	"executor.NewDepthExecutorManager":            {1, "walkPlanStep appends each step to the list of its depth: the order inside a depth only decides the order in which requests are created, and DepthExecutor.Execute sorts the requests it is given before grouping and sending them (R9b.sorted-entry; before repair 719a0ce the batch order was observable: the first failing entry of a batch decides which error is reported)"},
+	"executor.NewDepthExecutorManager":            {1, "walkPlanStep appends each step to the list of its depth: the order inside a depth only decides the order in which requests are created, and DepthExecutor.Execute sorts the requests it is given by insertion point, service and query before grouping and sending them (R9b.sorted-entry; before repair 719a0ce the batch order was observable: the first failing entry of a batch decides which error is reported)"},
 	"executor.walkPlanStep":                       {1, "recursion over Then: appends to per-depth lists, see NewDepthExecutorManager"},
 	"pebbles.(*Gateway).getQueryers":              {1, "one queryer per URL (children overwrite, the last writer wins), and the value is a function of the URL alone (factory(ctx, url)) for the default factory; a custom factory that depends on more is the embedder's responsibility"},
 	"pebbles.(*Gateway).parseIntrospectionQuery":  {1, "early return at the internal pseudo-service step: routeSelectionSet creates at most one step per location, so at most one step matches"},
